@@ -362,20 +362,140 @@ theorem typeLen_headW (n : Nat) (h : n < 18446744073709551616) :
           have e : ¬ n < 4294967296 := by omega
           simp [h1, h2, h3, h4, a, b, d, e, Width.ai, Width.bytes] <;> rfl
 
-open Dec in
+/-! decoding the two kinds of payload the writer produces -/
+section ValCodec
+open Dec
+
+theorem typeOf_uint (b : UInt8) (bs : Bytes) (h : b.toNat ≤ 0x1b) :
+    ∃ t, (t = .u8 ∨ t = .u16 ∨ t = .u32 ∨ t = .u64) ∧ typeOf b bs = .ok t bs := by
+  unfold typeOf
+  by_cases h1 : b.toNat ≤ 0x18
+  · exact ⟨.u8, by simp, by simp only [if_pos h1]; rfl⟩
+  · by_cases h2 : b.toNat = 0x19
+    · exact ⟨.u16, by simp, by simp only [h2]; rfl⟩
+    · by_cases h3 : b.toNat = 0x1a
+      · exact ⟨.u32, by simp, by simp only [h3]; rfl⟩
+      · have h4 : b.toNat = 0x1b := by omega
+        exact ⟨.u64, by simp, by simp only [h4]; rfl⟩
+
+theorem typeOf_bytes (b : UInt8) (bs : Bytes) (h1 : 0x40 ≤ b.toNat) (h2 : b.toNat ≤ 0x5b) :
+    typeOf b bs = .ok .bytes bs := by
+  unfold typeOf
+  generalize b.toNat = n at *
+  have e1 : ¬ n ≤ 0x18 := by omega
+  have e2 : (n == 0x19) = false := by simp; omega
+  have e3 : (n == 0x1a) = false := by simp; omega
+  have e4 : (n == 0x1b) = false := by simp; omega
+  have e5 : (0x20 ≤ n && n ≤ 0x37) = false := by simp; omega
+  have e6 : (n == 0x38) = false := by simp; omega
+  have e7 : (n == 0x39) = false := by simp; omega
+  have e8 : (n == 0x3a) = false := by simp; omega
+  have e9 : (n == 0x3b) = false := by simp; omega
+  have e10 : (0x40 ≤ n && n ≤ 0x5b) = true := by simp; omega
+  simp only [e1, e2, e3, e4, e5, e6, e7, e8, e9, e10, if_false, if_true, Bool.false_eq_true]
+  rfl
+
+theorem decVal_uint_ty (bs : Bytes) (t : CType) (ht : t = .u8 ∨ t = .u16 ∨ t = .u32 ∨ t = .u64)
+    (h : Dec.datatype bs = .ok t bs) :
+    decVal bs = (Dec.intAcc .u64 >>= fun n => (pure (.u n.toNat) : Dec Val)) bs := by
+  unfold decVal
+  rw [Dec.bind_run, h]
+  rcases ht with rfl | rfl | rfl | rfl <;> rfl
+
+theorem decVal_bytes_ty (bs : Bytes) (h : Dec.datatype bs = .ok .bytes bs) :
+    decVal bs = (Dec.bytes >>= fun b => (pure (.b b) : Dec Val)) bs := by
+  unfold decVal
+  rw [Dec.bind_run, h]
+
 theorem decVal_uint_head (w : Width) (n : Nat) (rest : Bytes) (hfit : w.fits n = true) :
     decVal (headW 0 w n ++ rest) = .ok (.u n) rest := by
+  have hai := Width.ai_le w n hfit
   have hmax : n ≤ IntTy.u64.max := by have := Width.fits_lt w n hfit; simp [IntTy.u64]; omega
-  have hu := Dec.unsigned_head w n rest hfit
-  cases w
-  · simp [Width.fits] at hfit
-    have h1 : n % 256 = n := by omega
-    have h2 : n ≤ 24 := by omega
-    have h3 : n ≤ 27 := by omega
-    simp [Width.ai, Width.bytes] at hu
-    simp [decVal, datatype, typeOf, headW, Width.ai, Width.bytes, be, Dec.bind_run, h1, h2, h3, intAcc, hu, tryAs, hmax]
-  all_goals
-    simp [Width.ai, Width.bytes] at hu
-    simp [decVal, datatype, typeOf, headW, Width.ai, Width.bytes, Dec.bind_run, intAcc, hu, tryAs, hmax]
+  have hb : (u8 (0 * 32 + w.ai n)).toNat ≤ 0x1b := by simp; omega
+  obtain ⟨t, ht, hty⟩ := typeOf_uint (u8 (0 * 32 + w.ai n)) (headW 0 w n ++ rest) hb
+  have hdt : Dec.datatype (headW 0 w n ++ rest) = .ok t (headW 0 w n ++ rest) := by
+    unfold Dec.datatype
+    rw [Dec.bind_run]
+    simp only [headW, List.cons_append, Dec.current_cons]
+    exact hty
+  rw [decVal_uint_ty _ t ht hdt]
+  have h1 : w.ai n % 256 ≤ 27 := by omega
+  simp [intAcc, headW, Dec.bind_run, h1, Dec.unsigned_head w n rest hfit, tryAs, hmax]
+
+theorem decVal_bytes_head (w : Width) (b rest : Bytes) (hfit : w.fits b.length = true) :
+    decVal (headW 2 w b.length ++ b ++ rest) = .ok (.b b) rest := by
+  have hai := Width.ai_le w b.length hfit
+  have hlt := Width.fits_lt w b.length hfit
+  have hb1 : 0x40 ≤ (u8 (2 * 32 + w.ai b.length)).toNat := by simp; omega
+  have hb2 : (u8 (2 * 32 + w.ai b.length)).toNat ≤ 0x5b := by simp; omega
+  have hdt : Dec.datatype (headW 2 w b.length ++ b ++ rest) = .ok .bytes (headW 2 w b.length ++ b ++ rest) := by
+    unfold Dec.datatype
+    rw [Dec.bind_run]
+    simp only [headW, List.cons_append, Dec.current_cons]
+    exact typeOf_bytes _ _ hb1 hb2
+  rw [decVal_bytes_ty _ hdt]
+  have hu := Dec.unsigned_head w b.length (b ++ rest) hfit
+  have h1 : (64 + w.ai b.length) % 256 / 32 * 32 = 64 := by omega
+  have h2 : (64 + w.ai b.length) % 256 % 32 = w.ai b.length := by omega
+  have h31 : u8 (w.ai b.length) ≠ 31 := by
+    intro h; have := congrArg UInt8.toNat h; simp at this; omega
+  have hlt' : b.length < 18446744073709551616 := by simpa using hlt
+  simp [Dec.bytes, headW, Dec.bind_run, majorOf, infoOf, h1, h2, h31, hu, u64ToUsize, hlt', Dec.readSlice_append]
+
+theorem NoPanic.datatype : NoPanic Dec.datatype := by
+  unfold Dec.datatype
+  have := NoPanic.typeOf
+  nopanic
+
+theorem NoPanic.u64ToUsize (n : Nat) : NoPanic (Dec.u64ToUsize n) := by
+  unfold Dec.u64ToUsize; nopanic
+
+theorem NoPanic.bytes : NoPanic Dec.bytes := by
+  unfold Dec.bytes
+  have h1 := NoPanic.unsigned
+  have h2 := NoPanic.u64ToUsize
+  have h3 := @NoPanic.typeMismatch Bytes
+  repeat' (first
+      | exact NoPanic.pure _ | exact NoPanic.read | exact h1 _ | exact h2 _ | exact h3 _ | exact NoPanic.readSlice _
+      | apply NoPanic.ite | apply NoPanic.bind | intro _)
+
+/-- the payload decoder of the scenarios never panics (so the `panic` arm of `valCodec.dec` is dead). -/
+theorem decVal_noPanic : NoPanic decVal := by
+  unfold decVal
+  apply NoPanic.bind NoPanic.datatype
+  intro t
+  have hi : NoPanic (Dec.intAcc .u64 >>= fun n => (pure (.u n.toNat) : Dec Val)) :=
+    NoPanic.bind (NoPanic.intAcc _) (fun _ => NoPanic.pure _)
+  have hb : NoPanic (Dec.bytes >>= fun b => (pure (.b b) : Dec Val)) :=
+    NoPanic.bind NoPanic.bytes (fun _ => NoPanic.pure _)
+  cases t <;> first | exact hi | exact hb | exact NoPanic.fail _
+
+end ValCodec
+
+/-- **The codec the driver and the harness run satisfies the round-trip hypothesis** of
+    `reader_roundtrip` on every value of the Rust type (`u64`, `Vec<u8>`). -/
+theorem valCodec_roundtrip (v : Val) (p : Bytes) (hwf : Val.Wf v) (h : valCodec.enc v = .ok p) :
+    valCodec.dec p = .ok v := by
+  cases v with
+  | u n =>
+    simp only [valCodec] at h
+    injection h with h; subst h
+    have := decVal_uint_head (prefWidth n) n [] (prefWidth_fits n hwf)
+    rw [List.append_nil, ← u64_headW n hwf] at this
+    simp [valCodec, this]
+  | b bs =>
+    simp only [valCodec] at h
+    injection h with h; subst h
+    have := decVal_bytes_head (prefWidth bs.length) bs [] (prefWidth_fits _ hwf)
+    rw [List.append_nil, ← typeLen_headW _ hwf] at this
+    simp [valCodec, Enc.bytes, this]
+  | x part => simp [valCodec] at h
+
+/-- non-vacuity: a two-frame stream, delivered one byte at a time with interruptions, read
+    with `max_len` exactly the larger payload. -/
+example :
+    (Reader.readN valCodec 3 ⟨⟨frames [Enc.u64 300, Enc.bytes [1, 2]],
+        [.io 1, .intr, .io 1, .io 1, .intr, .intr, .io 1, .io 1, .io 2, .io 9, .io 3, .io 1, .io 1, .io 1]⟩, [], 3⟩).1
+      = [.ok (some (.u 300)), .ok (some (.b [1, 2])), .ok none] := by rfl
 
 end Minicbor.C14
